@@ -28,6 +28,7 @@ fn main() {
     }
     let rep = match prop.as_str() {
         "C06" => verif_harness::props::c06::run(&cfg),
+        "C14" => verif_harness::props::c14::run(&cfg),
         _ => {
             eprintln!("unknown property {prop}");
             std::process::exit(2);
